@@ -2115,3 +2115,80 @@ func rulePatternUnnamedExact(r *Run) {
 		o.OK("match(label, value) under label != \"_\"").At(r.pos(cb.Pos()))
 	}
 }
+
+// rulePerStepGroupTables (PV-FRESH): vector aggregations and binary operations work step by
+// step: the table that maps grouping keys to groups / samples is built for the step at hand.
+// A table kept in the iterator between steps makes a group that has no input at a later step
+// show up there (with the value of an empty aggregation). The range aggregation's window is the
+// one table that persists by design and has its own rules (C09).
+func rulePerStepGroupTables(r *Run, typs []string) {
+	p := r.P
+	for _, tn := range typs {
+		fn := p.Method(metricPkg, tn, "Next")
+		o := r.Ob("PV-FRESH", "logqlmetric.(*"+tn+").Next group table", "the table keyed by grouping key that a step is computed with is created in that call: no group or sample of an earlier step is still in it")
+		if fn == nil {
+			o.Fail("-", "method not found")
+			continue
+		}
+		grp := funcGroup(fn)
+		n := 0
+		bad := false
+		for _, g := range grp {
+			allInstrs(g, func(in ssa.Instruction) {
+				var m ssa.Value
+				switch x := in.(type) {
+				case *ssa.MapUpdate:
+					m = x.Map
+				case *ssa.Lookup:
+					if _, ok := x.X.Type().Underlying().(*types.Map); ok {
+						m = x.X
+					}
+				}
+				if m == nil {
+					return
+				}
+				mt, ok := m.Type().Underlying().(*types.Map)
+				if !ok || typeString(mt.Key()) != "uint64" {
+					return
+				}
+				n++
+				for _, lv := range phiLeaves(originValueIn(m, grp)) {
+					lv = originValueIn(lv, grp)
+					switch x := lv.(type) {
+					case *ssa.MakeMap:
+						continue
+					case *ssa.Call:
+						// a helper that returns a map it made itself
+						if callee := staticCallee(x); callee != nil && callee.Blocks != nil && isFirstParty(pkgPathOf(callee)) {
+							okRet := true
+							for _, ret := range returnsOf(callee) {
+								if len(ret.Results) == 0 {
+									okRet = false
+									continue
+								}
+								if _, isMk := originValue(ret.Results[0]).(*ssa.MakeMap); !isMk {
+									if _, isMk2 := ret.Results[0].(*ssa.MakeMap); !isMk2 {
+										okRet = false
+									}
+								}
+							}
+							if okRet {
+								continue
+							}
+						}
+					}
+					bad = true
+					o.Fail(r.pos(in.Pos()), "the step is computed with %s, a table that outlives the call: groups of earlier steps are still in it", describe(lv, 1))
+					return
+				}
+			})
+		}
+		if n == 0 {
+			o.Fail(r.pos(fn.Pos()), "no table keyed by grouping key found")
+			continue
+		}
+		if !bad {
+			o.OK("%d use(s) of tables keyed by grouping key, each on a map made in this call", n).At(r.pos(fn.Pos()))
+		}
+	}
+}
